@@ -56,7 +56,9 @@
 //     the package comment says "before items are added") the model accepts both
 //     the old and the re-based deadline for those entries.
 //   - caches.Active and caches.PurgeAll are not in the property's operation
-//     list and are not called. OnPurge stays nil (cluster is C29's subject).
+//     list and are not called (PurgeAll can be added to the concurrent batches
+//     with VERIF_C28_PURGEALL=1, see withPurgeAll). OnPurge stays nil (cluster
+//     is C29's subject).
 //   - Keys are strings, as at every call site.
 //   - The default lifetime and the scan interval are 60 s (cache.go expireTime,
 //     scanTime; both documented in comments of the package).
@@ -149,56 +151,113 @@ var sleepPool = []int64{1, 5, 10, 29, 30, 31, 59, 60, 61, 90, 119, 120, 121, 300
 var durPool = []string{"10s", "30s", "45s", "90s", "2m", "5m", "15m", "1h", "24h"}
 var badDurPool = []string{"", "abc", "5", "1x"}
 
-// genSeqOp draws one operation. Histories are focused: most operations address
-// the case's hot class and hot key, so that add / expire / find / delete /
-// purge sequences on one entry are common rather than accidental.
-func genSeqOp(t *rapid.T, hotC, hotK int) Op {
-	w := rapid.IntRange(0, 99).Draw(t, "w")
-	c := hotC
-	if rapid.IntRange(0, 9).Draw(t, "otherc") < 3 {
-		c = rapid.IntRange(0, nClasses-1).Draw(t, "c")
-	}
-	key := func() int {
-		if rapid.IntRange(0, 9).Draw(t, "otherk") < 5 {
-			return rapid.IntRange(0, nKeys-1).Draw(t, "key")
+// seqOpGen returns the generator of one operation. Histories are focused: most
+// operations address the case's hot class and hot key, so that add / expire /
+// find / delete / purge sequences on one entry are common rather than
+// accidental; the hot class is mostly given the case's hot lifetime, and half
+// of the sleeps are placed relative to that lifetime or to the default. The
+// operations of a history are independent draws (given the hot parameters),
+// which is what lets rapid shrink a history by deleting operations.
+func seqOpGen(hotC, hotK int, hotDur string) *rapid.Generator[Op] {
+	hd, _ := time.ParseDuration(hotDur)
+	hotLife := hd.Milliseconds()
+	return rapid.Custom(func(t *rapid.T) Op {
+		w := rapid.IntRange(0, 99).Draw(t, "w")
+		c := hotC
+		if rapid.IntRange(0, 9).Draw(t, "otherc") < 3 {
+			c = rapid.IntRange(0, nClasses-1).Draw(t, "c")
 		}
-		return hotK
-	}
-	switch {
-	case w < 24:
-		return Op{K: "add", C: c, Key: key()}
-	case w < 48:
-		return Op{K: "find", C: c, Key: key()}
-	case w < 57:
-		return Op{K: "del", C: c, Key: key()}
-	case w < 62:
-		return Op{K: "purge", C: c}
-	case w < 66:
-		return Op{K: "purgelocal", C: c}
-	case w < 73:
-		if rapid.IntRange(0, 11).Draw(t, "bad") == 0 {
-			return Op{K: "setexp", C: c, Dur: rapid.SampledFrom(badDurPool).Draw(t, "dur")}
+		key := func() int {
+			if rapid.IntRange(0, 9).Draw(t, "otherk") < 5 {
+				return rapid.IntRange(0, nKeys-1).Draw(t, "key")
+			}
+			return hotK
 		}
-		return Op{K: "setexp", C: c, Dur: rapid.SampledFrom(durPool).Draw(t, "dur")}
-	case w < 76:
-		return Op{K: "size", C: c}
-	default:
-		return Op{K: "sleep", Ms: 1000 * rapid.SampledFrom(sleepPool).Draw(t, "s")}
-	}
+		switch {
+		case w < 24:
+			return Op{K: "add", C: c, Key: key()}
+		case w < 48:
+			return Op{K: "find", C: c, Key: key()}
+		case w < 57:
+			return Op{K: "del", C: c, Key: key()}
+		case w < 61:
+			return Op{K: "purge", C: c}
+		case w < 64:
+			return Op{K: "purgelocal", C: c}
+		case w < 71:
+			switch x := rapid.IntRange(0, 11).Draw(t, "which"); {
+			case x == 0:
+				return Op{K: "setexp", C: c, Dur: rapid.SampledFrom(badDurPool).Draw(t, "dur")}
+			case x < 7 && c == hotC:
+				return Op{K: "setexp", C: c, Dur: hotDur}
+			}
+			return Op{K: "setexp", C: c, Dur: rapid.SampledFrom(durPool).Draw(t, "dur")}
+		case w < 74:
+			return Op{K: "size", C: c}
+		default:
+			if rapid.Bool().Draw(t, "relative") {
+				// half a lifetime (two of these straddle a deadline that only a
+				// re-arm moves), the deadline itself, deadline + one scan interval
+				L := hotLife
+				if rapid.Bool().Draw(t, "default") {
+					L = defaultMs
+				}
+				return Op{K: "sleep", Ms: rapid.SampledFrom([]int64{L / 2, L/2 + 1000, L - 1000, L, L + 1000, L + scanMs - 1000, L + scanMs, L + scanMs + 1000}).Draw(t, "rel")}
+			}
+			return Op{K: "sleep", Ms: 1000 * rapid.SampledFrom(sleepPool).Draw(t, "s")}
+		}
+	})
 }
 
-func genSeq(t *rapid.T) Case {
-	c := Case{Kind: "seq", Limit: rapid.IntRange(1, 3).Draw(t, "limit")}
-	hotC := rapid.IntRange(0, nClasses-1).Draw(t, "hotc")
-	hotK := rapid.IntRange(0, nKeys-1).Draw(t, "hotk")
-	n := rapid.IntRange(1, 40).Draw(t, "n")
-	for i := 0; i < n; i++ {
-		c.Ops = append(c.Ops, genSeqOp(t, hotC, hotK))
+// genScenario draws a skeleton that walks one entry through a situation the
+// statement talks about, with 0..2 random operations between the skeleton's
+// steps (which may or may not disturb it; the model does not care).
+func genScenario(t *rapid.T, limit, hotC, hotK int, hotDur string) Case {
+	c := Case{Kind: "seq", Limit: limit}
+	L := defaultMs
+	var sk []Op
+	if rapid.Bool().Draw(t, "custom") {
+		d, _ := time.ParseDuration(hotDur)
+		L = d.Milliseconds()
+		sk = append(sk, Op{K: "setexp", C: hotC, Dur: hotDur})
+	}
+	add, find, del := Op{K: "add", C: hotC, Key: hotK}, Op{K: "find", C: hotC, Key: hotK}, Op{K: "del", C: hotC, Key: hotK}
+	sleep := func(ms int64) Op { return Op{K: "sleep", Ms: ms} }
+	jitter := 1000 * rapid.SampledFrom([]int64{-1, 0, 1, 30}).Draw(t, "jitter")
+	switch rapid.IntRange(0, 3).Draw(t, "scenario") {
+	case 0: // a hit re-arms the deadline; then the entry expires and is swept
+		sk = append(sk, add, sleep(L/2+1000), find, sleep(L/2+1000), find, sleep(L+scanMs+jitter), find)
+	case 1: // lifetime after purge
+		sk = append(sk, Op{K: rapid.SampledFrom([]string{"purge", "purgelocal"}).Draw(t, "p"), C: hotC}, add,
+			sleep(rapid.SampledFrom([]int64{defaultMs + scanMs + 1000, L - 1000, L + scanMs + 1000}).Draw(t, "s")), find)
+	case 2: // fill to the limit, overflow, make room
+		for k := 0; k < nKeys; k++ {
+			sk = append(sk, Op{K: "add", C: hotC, Key: k})
+		}
+		sk = append(sk, Op{K: "find", C: hotC, Key: nKeys - 1}, Op{K: "del", C: hotC, Key: 0}, Op{K: "add", C: hotC, Key: nKeys - 1}, Op{K: "find", C: hotC, Key: nKeys - 1}, Op{K: "find", C: hotC, Key: 0})
+	case 3: // delete and expiry are each reported once
+		sk = append(sk, add, del, find, del, add, sleep(L+jitter), del, add, sleep(L+scanMs+jitter), del, find)
+	}
+	extra := rapid.SliceOfN(seqOpGen(hotC, hotK, hotDur), 0, 2)
+	for _, op := range sk {
+		c.Ops = append(c.Ops, op)
+		c.Ops = append(c.Ops, extra.Draw(t, "extra")...)
 	}
 	return c
 }
 
-func genConcOp(t *rapid.T) Op {
+func genSeq(t *rapid.T) Case {
+	limit := rapid.IntRange(1, 3).Draw(t, "limit")
+	hotC := rapid.IntRange(0, nClasses-1).Draw(t, "hotc")
+	hotK := rapid.IntRange(0, nKeys-1).Draw(t, "hotk")
+	hotDur := rapid.SampledFrom(durPool).Draw(t, "hotdur")
+	if rapid.IntRange(0, 2).Draw(t, "scenario") == 0 {
+		return genScenario(t, limit, hotC, hotK, hotDur)
+	}
+	return Case{Kind: "seq", Limit: limit, Ops: rapid.SliceOfN(seqOpGen(hotC, hotK, hotDur), 1, 40).Draw(t, "ops")}
+}
+
+var concOpGen = rapid.Custom(func(t *rapid.T) Op {
 	w := rapid.IntRange(0, 99).Draw(t, "w")
 	c := rapid.IntRange(0, nClasses-1).Draw(t, "c")
 	switch {
@@ -214,23 +273,26 @@ func genConcOp(t *rapid.T) Op {
 		return Op{K: "purgelocal", C: c}
 	case w < 92:
 		return Op{K: "setexp", C: c, Dur: rapid.SampledFrom([]string{"1ms", "50ms", "60s", "1h"}).Draw(t, "dur")}
+	case w < 95 && withPurgeAll:
+		return Op{K: "purgeall"}
 	default:
 		return Op{K: "size", C: c}
 	}
-}
+})
+
+// withPurgeAll adds caches.PurgeAll to the concurrent batches. It is off by
+// default: PurgeAll is not in the property's operation list, and on the pinned
+// tree it reads the cache list without the lock (proposed/C28-2.md), which the
+// race detector reports on practically every batch; Go's testing package then
+// fails the run however the finding is classified. Set VERIF_C28_PURGEALL=1 to
+// exercise it (e.g. against a tree with proposed/C28-2.diff applied).
+var withPurgeAll = os.Getenv("VERIF_C28_PURGEALL") == "1"
 
 func genConc(t *rapid.T) Case {
-	c := Case{Kind: "conc", Limit: rapid.SampledFrom([]int{1, 2, 3, 8}).Draw(t, "limit"), Reps: rapid.IntRange(1, 6).Draw(t, "reps")}
-	nw := rapid.IntRange(2, maxWorkers).Draw(t, "workers")
-	for i := 0; i < nw; i++ {
-		n := rapid.IntRange(1, 16).Draw(t, "n")
-		var ops []Op
-		for j := 0; j < n; j++ {
-			ops = append(ops, genConcOp(t))
-		}
-		c.Workers = append(c.Workers, ops)
-	}
-	return c
+	return Case{Kind: "conc",
+		Limit:   rapid.SampledFrom([]int{1, 2, 3, 8}).Draw(t, "limit"),
+		Reps:    rapid.IntRange(1, 6).Draw(t, "reps"),
+		Workers: rapid.SliceOfN(rapid.SliceOfN(concOpGen, 1, 16), 2, maxWorkers).Draw(t, "workers")}
 }
 
 // ---------------------------------------------------------------- listener plumbing
@@ -279,8 +341,12 @@ func listener(id int, key any, value any) {
 			concRec.fail("listener: unknown key or value type", fmt.Sprintf("listener(%d, %v, %v)", id, key, value), "a key and value that were added")
 			return
 		}
+		if v>>epochShift != concRec.epoch {
+			// a late call about an entry of an earlier batch (a real-time
+			// sweeper between its unlock and its notification)
+			return
+		}
 		concRec.reports[[3]int64{int64(ci), int64(k), v}]++
-		concRec.perKey[ci][k]++
 	}
 }
 
@@ -373,6 +439,7 @@ func runSeq(c Case) []step {
 		for _, id := range seqClass {
 			_ = caches.SetExpiration(id, "60s")
 			caches.PurgeLocal(id)
+			caches.Purge(id) // either one suffices; OnPurge is nil
 		}
 		time.Sleep(time.Duration(scanMs+1000) * time.Millisecond)
 		synctest.Wait()
@@ -387,6 +454,7 @@ type entry struct {
 	val        int64
 	dlo, dhi   int64 // deadline interval (equal unless SetExpiration ran while the entry existed)
 	touch      int64 // time of the Add or of the last Find hit
+	firstD     int64 // deadline given by the Add alone (no re-arming)
 	ended      string
 	delMiss    bool // a Delete of the key returned false while the entry was past its deadline
 }
@@ -432,7 +500,7 @@ func checkSeq(c Case, trace []step, purgeResets bool) verdict {
 	var v verdict
 	v.at = len(c.Ops)
 	life := [nClasses]int64{defaultMs, defaultMs, defaultMs}
-	custom := [nClasses]bool{}      // lifetime differs from the default
+	custom := [nClasses]bool{}       // lifetime differs from the default
 	purgedCustom := [nClasses]bool{} // purged while a non-default lifetime was configured
 	cur := map[ck]*entry{}
 	byVal := map[int64]*entry{}
@@ -507,7 +575,7 @@ func checkSeq(c Case, trace []step, purgeResets bool) verdict {
 			if ev := unexpected(allowed); ev != nil {
 				return failAt(i, "listener: report during add for an entry that was not removed", fmt.Sprintf("event %+v", *ev), "no report")
 			}
-			ne := &entry{class: op.C, key: op.Key, val: int64(i + 1), dlo: now + life[op.C], dhi: now + life[op.C], touch: now}
+			ne := &entry{class: op.C, key: op.Key, val: int64(i + 1), dlo: now + life[op.C], dhi: now + life[op.C], touch: now, firstD: now + life[op.C]}
 			byVal[ne.val] = ne
 			if old != nil {
 				v.st.addOverwrite++
@@ -561,7 +629,7 @@ func checkSeq(c Case, trace []step, purgeResets bool) verdict {
 				}
 				if now < e.dlo {
 					v.st.findLiveHit++
-					if now >= e.touch+defaultMs && e.touch != now {
+					if now >= e.firstD {
 						v.st.rearmSaved++
 					}
 				} else {
@@ -725,6 +793,13 @@ func seqOracle(c Case) vkit.Outcome {
 	s := prim.st
 	if prim.fail != nil {
 		alt := checkSeq(c, trace, true)
+		// The alternative model is the primary one plus "purge resets the
+		// lifetime"; the two only differ after a purge of a class whose
+		// lifetime was configured. (Narrowing the attribution further, e.g. to
+		// classes purged since their last SetExpiration, was tried and is wrong:
+		// an entry added in that state keeps its short deadline across a later
+		// SetExpiration, and the known defect was then reported under another
+		// signature.)
 		switch {
 		case alt.fail == nil:
 			out.Fail = &vkit.Failure{Sig: sigPurge, Observed: prim.fail.Observed + " [the whole trace is explained by a model in which Purge/PurgeLocal resets the class's lifetime to the 60s default; primary signature: " + prim.fail.Sig + "]", Expected: prim.fail.Expected}
@@ -770,9 +845,15 @@ type concState struct {
 	floor   [nClasses][maxWorkers]atomic.Int64 // versions <= floor were deleted/purged and the call returned
 	// under lisMu:
 	reports map[[3]int64]int
-	perKey  [nClasses][maxWorkers]int
 	failure *vkit.Failure
+	// versions of this batch are epoch<<epochShift + 1, 2, ...: unique in the
+	// process, so that a listener call can always be attributed to its batch
+	epoch int64
 }
+
+const epochShift = 24
+
+var concEpoch int64
 
 // fail records the first violation. Caller must hold lisMu iff called from the
 // listener; other callers use failLocked.
@@ -788,10 +869,10 @@ func (s *concState) failLocked(sig, observed, expected string) {
 	s.fail(sig, observed, expected)
 }
 
-func (s *concState) keyReports(c, k int) int {
+func (s *concState) entryReports(c, k int, v int64) int {
 	lisMu.Lock()
 	defer lisMu.Unlock()
-	return s.perKey[c][k]
+	return s.reports[[3]int64{int64(c), int64(k), v}]
 }
 
 func atomicMax(a *atomic.Int64, v int64) {
@@ -805,7 +886,9 @@ func atomicMax(a *atomic.Int64, v int64) {
 
 func runConc(c Case) *vkit.Failure {
 	settings.SetDefault(defs.ServerMaxCacheSizeSetting, strconv.Itoa(c.Limit))
-	s := &concState{reports: map[[3]int64]int{}}
+	concEpoch++
+	s := &concState{reports: map[[3]int64]int{}, epoch: concEpoch}
+	base := concEpoch << epochShift
 	lisMu.Lock()
 	concRec = s
 	lisMu.Unlock()
@@ -816,7 +899,7 @@ func runConc(c Case) *vkit.Failure {
 		wg.Add(1)
 		go func(me int, ops []Op) {
 			defer wg.Done()
-			var ver [nClasses]int64
+			ver := [nClasses]int64{base, base, base}
 			var last [nClasses][maxWorkers]int64
 			<-startGate
 			for r := 0; r < c.Reps; r++ {
@@ -830,16 +913,17 @@ func runConc(c Case) *vkit.Failure {
 						s.added[op.C][me].Store(nv)
 						ver[op.C] = nv
 					case "del":
-						before := s.keyReports(op.C, me)
 						ok := caches.Delete(id, keyName(me))
-						after := s.keyReports(op.C, me)
 						// whatever Delete answered, no version added so far may be found from now on
 						atomicMax(&s.floor[op.C][me], ver[op.C])
-						if ok && after-before != 1 {
-							s.failLocked("delete returned true but the listener was called "+times(after-before), fmt.Sprintf("Delete(class %d, k%d)=true, listener calls for that key during the call: %d", id, me, after-before), "exactly one")
-						}
-						if !ok && after-before > 1 {
-							s.failLocked("listener called more than once for one key during one delete", fmt.Sprintf("%d calls", after-before), "at most one")
+						// This goroutine is the only writer of the key, so a
+						// Delete that found something removed this goroutine's
+						// newest version; the listener runs synchronously in
+						// Delete, so it has been told by now, once. (Counted per
+						// entry, not per key: a sweeper's late call about an
+						// older version of the key must not be mistaken for it.)
+						if n := s.entryReports(op.C, me, ver[op.C]); ok && n != 1 {
+							s.failLocked("delete returned true but the listener was called "+times(n), fmt.Sprintf("Delete(class %d, k%d)=true removed version %d, listener calls for that entry: %d", id, me, ver[op.C]-base, n), "exactly one")
 						}
 					case "find":
 						k := op.Key % nw
@@ -852,13 +936,26 @@ func runConc(c Case) *vkit.Failure {
 							case !isInt:
 								s.failLocked("find returned a value of another type", fmt.Sprintf("%v", val), "int64 version")
 							case v <= fl:
-								s.failLocked("found after its delete/purge returned", fmt.Sprintf("Find(class %d,k%d)=v%d, but v<=%d were deleted or purged by calls that returned before this Find began", id, k, v, fl), "not found or a newer version")
+								s.failLocked("found after its delete/purge returned", fmt.Sprintf("Find(class %d,k%d)=v%d, but v<=%d were deleted or purged by calls that returned before this Find began", id, k, v-base, fl-base), "not found or a newer version")
 							case v > st:
-								s.failLocked("found a version that was never added", fmt.Sprintf("Find(class %d,k%d)=v%d, newest started add v%d", id, k, v, st), "<= newest add")
+								s.failLocked("found a version that was never added", fmt.Sprintf("Find(class %d,k%d)=v%d, newest started add v%d", id, k, v-base, st-base), "<= newest add")
 							case v < last[op.C][k]:
-								s.failLocked("per-key version went backwards", fmt.Sprintf("Find(class %d,k%d)=v%d after this goroutine saw v%d", id, k, v, last[op.C][k]), "non-decreasing versions")
+								s.failLocked("per-key version went backwards", fmt.Sprintf("Find(class %d,k%d)=v%d after this goroutine saw v%d", id, k, v-base, last[op.C][k]-base), "non-decreasing versions")
 							default:
 								last[op.C][k] = v
+							}
+						}
+					case "purgeall":
+						var snap [nClasses][maxWorkers]int64
+						for ci := 0; ci < nClasses; ci++ {
+							for k := 0; k < nw; k++ {
+								snap[ci][k] = s.added[ci][k].Load()
+							}
+						}
+						caches.PurgeAll()
+						for ci := 0; ci < nClasses; ci++ {
+							for k := 0; k < nw; k++ {
+								atomicMax(&s.floor[ci][k], snap[ci][k])
 							}
 						}
 					case "purge", "purgelocal":
@@ -894,6 +991,7 @@ func runConc(c Case) *vkit.Failure {
 		_ = ci
 		_ = caches.SetExpiration(id, "60s")
 		caches.PurgeLocal(id)
+		caches.Purge(id)
 	}
 	lisMu.Lock()
 	concRec = nil
@@ -931,29 +1029,40 @@ func clip(s string, n int) string {
 	return s
 }
 
-// raceSite names the first frame of a race report that lies in ego's caches
-// package (or, failing that, in ego).
+// raceSite names the two conflicting accesses of the first race report by
+// their innermost ego frames, in sorted order, e.g.
+// "caches.PurgeAll <-> caches.newCache". The same pair of code sites gives the
+// same signature whichever goroutine the detector happened to see second.
 func raceSite(report string) string {
-	first := ""
+	var sites []string
+	want := false
 	for _, l := range strings.Split(report, "\n") {
-		l = strings.TrimSpace(l)
-		if strings.HasPrefix(l, "github.com/tucats/ego/internal/") {
-			if i := strings.LastIndex(l, "("); i > 0 {
-				l = l[:i]
+		t := strings.TrimSpace(l)
+		switch {
+		case strings.HasPrefix(t, "Goroutine ") || strings.HasPrefix(t, "=================="):
+			if len(sites) > 0 {
+				want = false
+				if strings.HasPrefix(t, "Goroutine ") {
+					goto done
+				}
 			}
-			l = strings.TrimPrefix(l, "github.com/tucats/ego/internal/")
-			if strings.HasPrefix(l, "caches.") {
-				return "in " + l
+		case strings.HasPrefix(t, "Read at ") || strings.HasPrefix(t, "Write at ") || strings.HasPrefix(t, "Previous read at ") || strings.HasPrefix(t, "Previous write at ") ||
+			strings.HasPrefix(t, "Atomic read at ") || strings.HasPrefix(t, "Atomic write at ") || strings.HasPrefix(t, "Previous atomic read at ") || strings.HasPrefix(t, "Previous atomic write at "):
+			want = true
+		case want && strings.HasPrefix(t, "github.com/tucats/ego/internal/"):
+			if i := strings.LastIndex(t, "("); i > 0 {
+				t = t[:i]
 			}
-			if first == "" {
-				first = l
-			}
+			sites = append(sites, strings.TrimPrefix(t, "github.com/tucats/ego/internal/"))
+			want = false
 		}
 	}
-	if first != "" {
-		return "in " + first
+done:
+	if len(sites) == 0 {
+		return "(no ego frame)"
 	}
-	return "(no ego frame)"
+	sort.Strings(sites)
+	return strings.Join(sites, " <-> ")
 }
 
 func concOracle(c Case) vkit.Outcome {
@@ -974,7 +1083,7 @@ func concOracle(c Case) vkit.Outcome {
 			switch op.K {
 			case "add":
 				hasAdd[w] = true
-			case "del", "purge", "purgelocal":
+			case "del", "purge", "purgelocal", "purgeall":
 				removes = true
 			}
 		}
